@@ -228,7 +228,7 @@ def make_disk(cfg, d=None):
 
 def make_redis(cfg, fake=None):
     from slimta.redisstorage import RedisStorage
-    st = RedisStorage(prefix='slimta:')
+    st = RedisStorage(prefix=(cfg or {}).get('prefix', 'slimta:'))
     st.redis = fake or FakeRedis()
     return st
 
